@@ -90,3 +90,53 @@ def _(v):
     rsys = ReactionSystem([Reaction({"A": 1}, {"B": 1}, v.real("k", lo=0, hi=9), checks=())], [Substance("A"), Substance("B")], checks=())
     odesys, extra = v.call(get_odesys, rsys, SymbolicSys=FakeSymbolicSys)
     v.prove("no_bound_no_callback", extra["max_euler_step_cb"] is None and extra["linear_dependencies"] is None)
+
+
+@harness("C06", "get_odesys.result_arrays_carry_the_requested_units", functions=[ODE + ":get_odesys", ODE + ":get_odesys.<locals>.post_processor", ODE + ":get_odesys.<locals>.<lambda>",
+                                                                                 "chempy.units:rescale", "chempy.units:to_unitless", "chempy.units:get_derived_unit"],
+         kind="shape-bounded", div_mode="assume", samples=0, max_paths=400)
+def _(v):
+    """'through to the result arrays': with a unit registry the numbers handed to the integrator are the state in registry units, and the arrays
+    handed back are the integrator's numbers in registry units EXPRESSED in the requested output units (same physical value), for any registry
+    and any compatible output units (generic units of symbolic scale, abstraction 5.1)"""
+    import numpy
+    from chempy.kinetics.ode import get_odesys
+    from chempy.kinetics.rates import MassAction
+    from chempy.chemistry import Reaction, Substance
+    from chempy.reactionsystem import ReactionSystem
+    from chempy import units as CU
+    from pyvc.qmodel import si_value, dim_of, std_table, Quantity
+    from contracts.C04 import FakeSymbolicSys
+    from contracts.C10 import _registry, _unit_in_registry, CONC, TIME
+    t = std_table()
+    reg = _registry(v, t)
+    v.contract(CU.default_unit_in_registry, "default_unit_in_registry", None, lambda v_, value, registry: _unit_in_registry(t, registry, value) if isinstance(value, Quantity) else 1)
+    v.contract(CU.unitless_in_registry, "unitless_in_registry", None,
+               lambda v_, value, registry: v_.interp.call(CU.to_unitless, (value, _unit_in_registry(t, registry, value))) if isinstance(value, Quantity) else value)
+    k = v.real("k", lo=1e-9, hi=1e9)
+    ku = t.generic("ku", (0, 0, -1, 0, 0, 0, 0))
+    rsys = ReactionSystem([Reaction({"A": 1}, {"B": 1}, MassAction([k * ku]), checks=())], [Substance("A"), Substance("B")], checks=())
+    out_t, out_c = t.generic("out_t", TIME), t.generic("out_c", CONC)
+    x, y = v.real("x", lo=0, hi=1e6), v.real("y", lo=0, hi=1e6)
+    reg_t, reg_c = reg["time"], reg["amount"] / reg["length"] ** 3
+    for label, kw in (("both_requested", dict(output_time_unit=out_t, output_conc_unit=out_c)), ("only_conc_requested", dict(output_conc_unit=out_c)),
+                      ("only_time_requested", dict(output_time_unit=out_t)), ("none_requested", {})):
+        odesys, extra = v.call(get_odesys, rsys, unit_registry=reg, SymbolicSys=FakeSymbolicSys, **kw)
+        to_x, to_y, to_p = odesys.kwargs["to_arrays_callbacks"]
+        (post,) = odesys.kwargs["post_processors"]
+        tm, conc, par = v.call(post, x, y, numpy.array([]))
+        want_t, want_c = kw.get("output_time_unit", reg_t), kw.get("output_conc_unit", reg_c)
+        v.prove(label + ".time_dimension", isinstance(tm, Quantity) and dim_of(tm) == TIME)
+        v.prove(label + ".conc_dimension", isinstance(conc, Quantity) and dim_of(conc) == CONC)
+        v.prove_identity(label + ".time_same_physical_value", si_value(tm), x * si_value(reg_t))
+        v.prove_identity(label + ".conc_same_physical_value", si_value(conc), y * si_value(reg_c))
+        v.prove_identity(label + ".time_expressed_in_requested_unit", tm.magnitude * si_value(want_t), x * si_value(reg_t))
+        v.prove_identity(label + ".conc_expressed_in_requested_unit", conc.magnitude * si_value(want_c), y * si_value(reg_c))
+        # going in: any compatible unit is converted to registry units; what comes back converts to the same number again
+        v.prove_identity(label + ".state_in_registry_units", v.call(to_y, y * out_c) * si_value(reg_c), y * si_value(out_c))
+        v.prove_identity(label + ".time_in_registry_units", v.call(to_x, x * out_t) * si_value(reg_t), x * si_value(out_t))
+        v.prove_identity(label + ".round_trip_conc", v.call(to_y, conc), y)
+        v.prove_identity(label + ".round_trip_time", v.call(to_x, tm), x)
+    yA, yB = odesys.dep
+    v.prove_identity("rhs_in_registry_units", odesys.exprs[0] / si_value(reg_t), -si_value(k * ku) * yA)
+    v.prove_identity("rhs_product", odesys.exprs[1], -odesys.exprs[0])
